@@ -6,7 +6,9 @@ SPEC = {
                           "hash_from_str_length", "hash_cbor_roundtrip", "hash_decode_rejects", "hash_decode_length",
                           "epoch_nonce_def", "rolling_nonce_def", "rolling_nonce_panics_iff"],
     "streams": [{"name": "hash", "quick": 300, "thorough": 6000}],
-    "rule": "a case = one batch of ops (chunked hash of 0..4096 bytes [thorough 16384] split at random points incl. block boundaries and "
+    "rule": "EXHAUSTIVE in every run: all 256 tag bytes; every byte-string length 0..66 through Hash<28>/Hash<32> CBOR decode (both head "
+            "forms) and From<&[u8]>; every hex-string length 0..2N+3 through FromStr; every first byte 0x00..0xff of the CBOR input with 0 / 2 / 40 "
+            "following bytes; every VRF length 0..70 and 128 for the rolling nonce. SAMPLED: a case = one batch of ops (chunked hash of 0..4096 bytes [thorough 16384] split at random points incl. block boundaries and "
             "empty chunks, one-shot hash, tagged hash [tag = case number mod 256, so every tag byte], hash_cbor / hash_tagged_cbor of a random "
             "minicbor token sequence incl. real Hash<N> values, hex print/parse with wrong lengths 0..65 / odd / bad characters / non-ASCII, serde to/from JSON (strings, unterminated strings, numbers, null), "
             "CBOR encode/decode with all head widths, wrong lengths 0..64, indefinite, wrong types, truncations, From<&[u8]>, epoch nonce "
